@@ -116,7 +116,14 @@ DS_Accept = [None]
 
 
 def header_of(ranges):
-    return ",".join(r if q is None else f"{r};q={q}" for r, q in ranges)
+    # an item without q is sometimes written with an empty trailing parameter ("gzip;", "de-AT ;"): same range
+    out = []
+    for i, (r, q) in enumerate(ranges):
+        if q is None:
+            out.append(r + ("", "", ";", " ;")[(i + len(r)) % 4] if ";" not in r else r)
+        else:
+            out.append(f"{r};q={q}")
+    return ",".join(out)
 
 
 def check_generic(rec, http, cls, fam, ranges, offers, spec, match):
